@@ -166,9 +166,13 @@ def c05(tier):
     inv = ["Canonical", "Readable", "PruneExact", "RcTrue", "BatchRcTrue"]
     pr = ["CommitExact", "AbortRestores", "OpenBatchIsolated", "AppendOnly"]
     base = dict(features="FBatchFail", invariants=inv, properties=pr)
+    # every behaviour of up to 8 (10) calls on one key with two long values, nothing merged:
+    # bookkeeping that goes wrong across several batches (stale counts, re-created nodes)
+    one = dict(base, keys="KOne", look="LOne", vals="VShare", maxlive=1, maxbatch=2, features="FBatch",
+               view="ViewHist")
     return generic("C05", tier,
-                   [dict(base, level=5)],
-                   [dict(base, level=7, maxbatch=3, features="FBatchNoop"),
+                   [dict(base, level=5), dict(one, level=9)],
+                   [dict(one, level=11), dict(base, level=7, maxbatch=3, features="FBatchNoop"),
                     dict(base, level=6, keys="KShare", look="LShare", vals="VShare", maxbatch=3)],
                    modes=("batch",), ntr=(100, 1500),
                    sim=[dict(base, features="FBatchFailNoop", maxbatch=4, maxlive=4),
@@ -179,8 +183,10 @@ def c05(tier):
 def c06(tier):
     inv = ["PruneExact", "RcTrue", "RegenAgrees", "BatchRcTrue", "Readable"]
     base = dict(prune="OnlyPrune", invariants=inv, properties=["AbortRestores"])
+    one = dict(base, keys="KOne", look="LOne", vals="VShare", maxlive=1, maxbatch=2, features="FBatch",
+               view="ViewHist")
     return generic("C06", tier,
-                   [dict(base, level=5, features="FBatchNoop"),
+                   [dict(one, level=9), dict(base, level=5, features="FBatchNoop"),
                     dict(base, level=5, keys="KShare", look="LShare", vals="VShare", features="FDirect")],
                    [dict(base, level=7, keys="KFull", look="LFull", vals="VFull", maxlive=4,
                          features="FBatchNoop", maxbatch=3),
